@@ -55,7 +55,7 @@ pub fn gen(rng: &mut Rng, tier: Tier) -> Scn {
         let mut o = gen_object(rng, i, &spec, max_symbols / n as u64 + 8);
         if rng.chance(0.25) {
             o.cenc = *rng.pick(&[CencSpec::Zlib, CencSpec::Deflate, CencSpec::Gzip]);
-            if matches!(o.source, SourceSpec::File | SourceSpec::Stream(_) | SourceSpec::StreamAt(..)) {
+            if matches!(o.source, SourceSpec::File | SourceSpec::Stream(_) | SourceSpec::StreamAt(..) | SourceSpec::StreamFailingSeek(..)) {
                 o.source = SourceSpec::Buffer;
             }
         }
